@@ -63,6 +63,7 @@ type Ctx struct {
 	nviol       int
 	known       []string
 	internal    []string
+	diagnostics []string
 }
 
 func NewCtx(id string) *Ctx {
@@ -162,6 +163,17 @@ func (c *Ctx) NumViolations() int {
 	return c.nviol
 }
 
+// Diagnostic records something worth a look that is neither a verdict about the
+// library nor a failure of the machinery (e.g. the generator's intent disagreeing
+// with specification AND library): printed, kept in the evidence, exit code unaffected.
+func (c *Ctx) Diagnostic(format string, a ...any) {
+	c.mu.Lock()
+	defer c.mu.Unlock()
+	msg := fmt.Sprintf(format, a...)
+	c.diagnostics = append(c.diagnostics, msg)
+	fmt.Printf("DIAGNOSTIC %s: %s\n", c.ID, msg)
+}
+
 // Internal records a failure of the machinery itself (exit 2, never a violation).
 func (c *Ctx) Internal(format string, a ...any) {
 	c.mu.Lock()
@@ -215,6 +227,12 @@ func (c *Ctx) Finish() {
 		"assumptions": c.Assumptions,
 		"wall_s":      time.Since(c.Start).Seconds(),
 		"violations":  c.nviol,
+	}
+	if len(c.diagnostics) > 0 {
+		cov, _ := ev["coverage"].(map[string]any)
+		if cov != nil {
+			cov["diagnostics"] = c.diagnostics
+		}
 	}
 	if len(c.internal) > 0 {
 		ev["internal_errors"] = c.internal
